@@ -111,6 +111,8 @@ pub struct Schedule {
     pub seed: u64,
     /// 0 ⇒ every future and stream item is immediately ready
     pub max_pending: u32,
+    /// probability in 1/1000 that a future / stream item has a non-empty script
+    pub pending_permille: u32,
     /// executor-side spurious polls: probability in 1/1000 per loop iteration
     pub spurious_permille: u32,
     pub explicit: bool,
@@ -129,10 +131,11 @@ impl Schedule {
             return vec![];
         }
         let mut rng = Rng::new(mix(&[self.seed, kind, a as u64, b as u64]));
-        // most futures are ready at once or after one pending poll
-        let n = match rng.below(10) {
-            0..=3 => 0,
-            4..=6 => 1,
+        if rng.below(1000) >= self.pending_permille as u64 {
+            return vec![];
+        }
+        let n = match rng.below(2) {
+            0 => 1,
             _ => rng.range(1, self.max_pending as u64),
         };
         (0..n)
@@ -429,6 +432,7 @@ fn sync_value<'a>(shared: &Shared, path: String, v: Val) -> ResolvedValue<'a> {
             items: items.into_iter().map(Some).collect(),
             idx: 0,
             hint,
+            ended: false,
             _marker: std::marker::PhantomData,
         })),
     }
@@ -440,7 +444,21 @@ struct SyncIter<'a> {
     items: Vec<Option<Outcome>>,
     idx: usize,
     hint: Hint,
+    ended: bool,
     _marker: std::marker::PhantomData<&'a ()>,
+}
+
+/// The production of a list item (and the end of a list) is resolver-side code being called:
+/// it is part of the call log that sync and async execution must agree on.
+fn log_item(shared: &Shared, path: &str) {
+    let mut g = shared.lock().unwrap();
+    g.event(|| format!("item {path}"));
+    g.calls.push(CallRec {
+        path: path.to_string(),
+        parent_type: String::new(),
+        field: "<list item>".into(),
+        args: J::Null,
+    });
 }
 
 impl<'a> Iterator for SyncIter<'a> {
@@ -448,12 +466,17 @@ impl<'a> Iterator for SyncIter<'a> {
 
     fn next(&mut self) -> Option<Self::Item> {
         if self.idx >= self.items.len() {
+            if !self.ended {
+                self.ended = true;
+                log_item(&self.shared, &child_path(&self.path, "<end>"));
+            }
             return None;
         }
         let i = self.idx;
         self.idx += 1;
         let item = self.items[i].take().unwrap();
         let path = child_path(&self.path, &i.to_string());
+        log_item(&self.shared, &path);
         Some(match item {
             Ok(v) => Ok(sync_value(&self.shared, path, v)),
             Err(message) => Err(FieldError { message }),
@@ -690,6 +713,8 @@ impl<'a> Stream for SimStream<'a> {
             this.finished = true;
             g.live.remove(&(true, id));
             g.event(|| format!("stream#{id} end"));
+            drop(g);
+            log_item(&shared, &child_path(&this.path, "<end>"));
             return Poll::Ready(None);
         }
         this.idx += 1;
@@ -697,6 +722,7 @@ impl<'a> Stream for SimStream<'a> {
         drop(g);
         let item = this.items[i].take().unwrap();
         let path = child_path(&this.path, &i.to_string());
+        log_item(&shared, &path);
         Poll::Ready(Some(match item {
             Ok(v) => Ok(async_value(&shared, path, v)),
             Err(message) => Err(FieldError { message }),
